@@ -155,9 +155,85 @@ def forced_cells(tier):
     return cells
 
 
+def scale_cases(ctx, rng):
+    """big and many: payloads of several MB, dozens of signatures, a key set of hundreds of keys, header values of 100 kB"""
+    from .. import gen
+    j = J.load()
+    hs = gen.new_oct(256)
+    ec = gen.new_ec("P-256")
+    big = rng.randbytes(3 << 20)
+    text = ("line %d of a long text\n" * 1).encode()
+    for alg, jwk in (("HS256", hs), ("ES256", ec)):
+        key, pub = j.key(jwk), j.key(jwk if jwk["kty"] == "oct" else gen.public_jwk(jwk))
+        for name, payload in (("3MiB-random", big), ("2MiB-text", b"a long line of text, again and again\n" * 56000)):
+            for form in ("compact", "flat", "b64false-detached"):
+                ctx.ev()
+                if form == "compact":
+                    o = call(j.jws.serialize_compact, {"alg": alg}, payload, key, algorithms=[alg])
+                    v = call(j.jws.deserialize_compact, o.value, pub, algorithms=[alg]) if o.ok else o
+                elif form == "flat":
+                    o = call(j.jws.serialize_json, {"protected": {"alg": alg}}, payload, key, algorithms=[alg])
+                    v = call(j.jws.deserialize_json, o.value, pub, algorithms=[alg]) if o.ok else o
+                else:
+                    if name != "2MiB-text":
+                        continue
+                    o = call(j.rfc7797.serialize_compact, {"alg": alg, "b64": False, "crit": ["b64"]}, payload, key, algorithms=[alg])
+                    v = call(j.rfc7797.deserialize_compact, o.value, pub, payload=payload, algorithms=[alg]) if o.ok else o
+                ctx.count("scale_cases")
+                ctx.nontrivial(("scale", alg, name, form))
+                ctx.cell("scale", form, name)
+                case = {"scale": name, "alg": alg, "form": form}
+                if not o.ok or not v.ok:
+                    ctx.violation(f"scale:roundtrip-fails:{(v if o.ok else o).etype}", f"{name} payload, {alg}, {form}: {(v if o.ok else o).exc!r}", case)
+                elif v.value.payload != payload:
+                    ctx.violation("scale:payload-differs", f"{name} payload, {alg}, {form}: {len(v.value.payload)} octets returned, {len(payload)} signed", case)
+    # many signatures, each with a key of its own picked from a large set by kid
+    n = 60
+    jwks = [{**(gen.new_oct(256) if i % 3 else gen.new_ec("P-256")), "kid": f"signer-{i}"} for i in range(n)]
+    decoys = [{**gen.new_oct(256), "kid": f"decoy-{i}"} for i in range(400)]
+    allj = jwks + decoys
+    rng.shuffle(allj)
+    ks = j.KeySet([j.key(x) for x in allj])
+    pubs = j.KeySet([j.key(x if x["kty"] == "oct" else gen.public_jwk(x)) for x in reversed(allj)])
+    members = [{"protected": {"alg": "HS256" if x["kty"] == "oct" else "ES256"}, "header": {"kid": x["kid"]}} for x in jwks]
+    ctx.ev()
+    o = call(j.jws.serialize_json, copy.deepcopy(members), b"many signers", ks, algorithms=["HS256", "ES256"])
+    v = call(j.jws.deserialize_json, copy.deepcopy(o.value), pubs, algorithms=["HS256", "ES256"]) if o.ok else o
+    ctx.count("scale_cases")
+    ctx.nontrivial(("scale", "many-signatures"))
+    ctx.cell("scale", "general", f"{n}-signatures-460-keys")
+    case = {"scale": f"{n} signatures, key set of {len(allj)} keys"}
+    if not o.ok or not v.ok:
+        ctx.violation(f"scale:roundtrip-fails:{(v if o.ok else o).etype}", f"{case['scale']}: {(v if o.ok else o).exc!r}", case)
+    else:
+        got = [m.headers() for m in v.value.members]
+        if v.value.payload != b"many signers" or [h.get("kid") for h in got] != [x["kid"] for x in jwks] or len(o.value["signatures"]) != n:
+            ctx.violation("scale:members-differ", f"{case['scale']}: payload or the list of signers came back differently", case)
+        # every signature is really by the key its kid names
+        from refjose import jws as rjws
+        from refjose.keys import RefKey
+        for x, e in list(zip(jwks, o.value["signatures"]))[:: 7]:
+            r = rjws.verify_json({"payload": o.value["payload"], **e}, RefKey.from_jwk(x))
+            if r.verdict != "ACCEPT":
+                ctx.violation("scale:signature-not-by-named-key", f"{case['scale']}: signature labelled {x['kid']} does not verify under that key: {r.reason}", case)
+    # very long header values
+    longv = "k" * 100000
+    ctx.ev()
+    o = call(j.jws.serialize_compact, {"alg": "HS256", "kid": longv, "cty": "é" * 30000}, b"x", j.key(hs), algorithms=["HS256"])
+    v = call(j.jws.deserialize_compact, o.value, j.key(hs), algorithms=["HS256"]) if o.ok else o
+    ctx.count("scale_cases")
+    ctx.nontrivial(("scale", "long-header"))
+    if not o.ok or not v.ok:
+        ctx.violation(f"scale:roundtrip-fails:{(v if o.ok else o).etype}", f"100 kB kid: {(v if o.ok else o).exc!r}", {"scale": "long header values"})
+    elif v.value.headers().get("kid") != longv or v.value.headers().get("cty") != "é" * 30000:
+        ctx.violation("scale:header-differs", "100 kB kid / 30000-character cty came back differently", {"scale": "long header values"})
+
+
 def run_shard(ctx):
     J.load()
     rng = ctx.rng
+    if ctx.shard == 2:
+        scale_cases(ctx, rng)
     forced = forced_cells(ctx.tier)
     for idx, kw in enumerate(forced):
         if idx % ctx.nshards != ctx.shard:
